@@ -10,6 +10,7 @@
  */
 
 #include <stdio.h>
+#include <stdint.h>
 #include <stdlib.h>
 #include <string.h>
 
@@ -44,14 +45,14 @@ int read_hex(const char *filename, Memory *memory)
   FILE *in;
   int ch;
   int byte_count;
-  int address;
+  uint32_t address;
   int record_type;
   int checksum;
   int checksum_calc;
   int n;
   int start_address = 0;
   int line = 0;
-  int start, end;
+  int64_t start, end;
   int segment = 0;
 
   memory->clear();
